@@ -2131,6 +2131,7 @@ class STr:
         self.ltys = {}       # local name -> [type]  (a list so that `List ?` can be refined in place)
         self.mut, self.exc, self.ret = self.t.sig
         self.rd_self = "self"   # what `self` reads as (a property of another object is inlined with it rebound)
+        self.fresh = set()      # locals holding a list CREATED here (`[]`, a comprehension) that nobody else can see yet
 
     # ------------------------------------------------------------------ small things
     def tmp(self, p="v"):
@@ -2250,6 +2251,9 @@ class STr:
                 return _Place("self", self.t.self_type, lambda nv: [("let", "self", nv)])
             if n.id in env.vars:
                 ln, ty = env.vars[n.id]
+                # a list that is read (stored somewhere, passed on, returned) may from now on be seen by others:
+                # value semantics would no longer be Python's for a later `append`
+                self.fresh.discard(n.id)
                 return _Place(ln, ty[0] if isinstance(ty, list) else ty, None)
             raise Unsupported(f"free name {n.id}")
         if isinstance(n, ast.Attribute):
@@ -2596,8 +2600,8 @@ class STr:
                 ln, tyb = env.vars[f.value.id]
                 ty = tyb[0] if isinstance(tyb, list) else tyb
                 el = _targ(ty, "List")
-                if el is None or not isinstance(tyb, list):
-                    raise Unsupported(f"append to {f.value.id} : {ty}")
+                if el is None or not isinstance(tyb, list) or f.value.id not in self.fresh:
+                    raise Unsupported(f"append to {f.value.id} : {ty} (not a list created in this method, or one it has handed on)")
                 e, ety = self.tex(n.args[0], env, pre, None if el == "?" else el)
                 if el == "?":
                     tyb[0] = f"List {_paren(ety)}"
@@ -2722,6 +2726,10 @@ class STr:
                     pre.append(("let", ln, e))
                 env2 = self.after(pre, env)
                 env2.vars[tg.id] = (ln, tyb)
+                if isinstance(s.value, (ast.List, ast.ListComp)):
+                    self.fresh.add(tg.id)
+                else:
+                    self.fresh.discard(tg.id)
             else:
                 p = self.place(tg, env, pre, for_write=True)
                 if p.write is None:
@@ -2859,8 +2867,13 @@ class STr:
         if s.orelse or not isinstance(s.target, ast.Name):
             raise Unsupported("for … else / pattern target")
         x = s.target.id
+        if self.mut and any(isinstance(m, ast.Name) and m.id == "self" for m in ast.walk(s.iter)):
+            # Python iterates the LIVE list; the translation iterates a snapshot
+            raise Unsupported("iteration over a part of self in a method that changes self")
         pre = []
+        fresh0 = set(self.fresh)
         xs, xty = self.tex(s.iter, env, pre)
+        self.fresh = fresh0   # (iterating a list does not hand it on)
         el = _targ(xty, "List")
         if el is None:
             raise Unsupported(f"iteration over a {xty}")
@@ -2874,7 +2887,10 @@ class STr:
         env2 = env.copy()
         env2.vars[x] = (_lname(x), el)
         call_again = " ".join([name] + args + ["rest'"] + names)
+        fresh1 = set(self.fresh)
         body = self.block(list(s.body), env2, "    ", lambda e, i: i + call_again)
+        if (fresh1 - self.fresh) & set(carried):
+            raise Unsupported(f"the loop body hands on the list(s) {sorted((fresh1 - self.fresh) & set(carried))} it appends to")
         done = (f".ok {tup}" if self.exc else tup)
         self.aux.append(f"/-- the `for {x} in {ast.unparse(s.iter)}` loop of {'.'.join(self.t.path)} -/\n"
                         f"def {name} {' '.join(bs)} : List {_paren(_lean_ty(el))} → {' → '.join(tys)} → {res}\n"
@@ -2900,7 +2916,10 @@ class STr:
         env3 = self.after(pre, env2)
         out, ind = self.emit(pre, "    ")
         call_again = " ".join([name] + args + ["fuel"] + names)
+        fresh1 = set(self.fresh)
         body = self.block(list(s.body), env3.copy(), ind + "  ", lambda e, i: i + call_again)
+        if (fresh1 - self.fresh) & set(carried):
+            raise Unsupported(f"the loop body hands on the list(s) {sorted((fresh1 - self.fresh) & set(carried))} it appends to")
         self.aux.append(f"/-- the `while {ast.unparse(s.test)}` loop of {'.'.join(self.t.path)} -/\n"
                         f"def {name} {' '.join(bs)} : Nat → {' → '.join(tys)} → {res}\n"
                         f"  | 0, {', '.join('_' for _ in names)} => .error .fuel\n"
